@@ -105,7 +105,7 @@ func genCodecOps(cfg hlib.Config, part string, r *hlib.Rand, o *hlib.Out) []stri
 	for _, p := range []struct {
 		name string
 		f    func(g *gen, th bool, scale int)
-	}{{"bin", genBin}, {"url", genURL}, {"url", genURLQuery}, {"txt", genTxt}, {"radix", genRadix}, {"hash", genHash}, {"json", genJSON}, {"xml", genXML}} {
+	}{{"bin", genBin}, {"url", genURL}, {"url", genURLQuery}, {"txt", genTxt}, {"radix", genRadix}, {"hash", genHash}, {"json", genJSON}, {"xml", genXML}, {"csv", genCSV}} {
 		if want(p.name) {
 			p.f(g, th, scale)
 		}
@@ -805,4 +805,81 @@ func joinComma(s []string) string {
 		out += x
 	}
 	return out
+}
+
+// CSV: to_csv | from_csv on rectangular string tables, from_csv on arbitrary text
+func genCSV(g *gen, th bool, scale int) {
+	r := g.r
+	g.add(false, "csv rt []")
+	g.add(false, "csv dec -")
+	alpha := []string{"a", ",", "\"", "\n", "\r", "#", " ", "\\", ".", "\t", "\u00a0", "\u2028", "é"}
+	// every single field of <= 3 symbols, alone and next to others
+	var fields []string
+	var rec func(n int, cur string)
+	rec = func(n int, cur string) {
+		fields = append(fields, cur)
+		if n == 0 {
+			return
+		}
+		for _, x := range alpha {
+			rec(n-1, cur+x)
+		}
+	}
+	depth := 2
+	if th {
+		depth = 3
+	}
+	rec(depth, "")
+	for _, f := range fields {
+		g.add(true, "csv rt %s", wireOf([]any{[]any{f}}))
+		g.add(true, "csv rt %s", wireOf([]any{[]any{"x", f}, []any{f, ""}}))
+	}
+	cell := func() string {
+		switch r.Intn(4) {
+		case 0:
+			return fields[r.Intn(len(fields))]
+		case 1:
+			return defaultStr(r)
+		case 2:
+			return ""
+		default:
+			return randString(r, r.Range(0, 5), 1)
+		}
+	}
+	for k := 0; k < 1500*scale; k++ {
+		rows, cols := r.Range(0, 4), r.Range(1, 4)
+		tbl := make([]any, rows)
+		for i := range tbl {
+			row := make([]any, cols)
+			for j := range row {
+				row[j] = cell()
+			}
+			tbl[i] = row
+		}
+		g.add(rows > 0, "csv rt %s", wireOf(tbl))
+	}
+	// from_csv: every text of <= 5 (thorough: 6) symbols over the structural alphabet
+	dalpha := []byte("a,\"\n\r# ")
+	maxN := 4
+	if th {
+		maxN = 6
+	}
+	for n := 1; n <= maxN; n++ {
+		overAlphabet(dalpha, n, func(b []byte) { g.add(true, "csv dec %s", hx(b)) })
+	}
+	for k := 0; k < 2000*scale; k++ {
+		n := r.Range(5, 40)
+		var sb []byte
+		for i := 0; i < n; i++ {
+			switch r.Intn(5) {
+			case 0:
+				sb = append(sb, alpha[r.Intn(len(alpha))]...)
+			case 1:
+				sb = append(sb, "\"\",\n"[r.Intn(4)])
+			default:
+				sb = append(sb, dalpha[r.Intn(len(dalpha))])
+			}
+		}
+		g.add(true, "csv dec %s", hx(sb))
+	}
 }
